@@ -574,6 +574,18 @@ func genWorld(t *rapid.T, maxFiles int, recCombo, http, shadows bool) *World {
 			w.Files = append(w.Files, sf)
 		}
 	}
+	if shadows && npkg <= 1 && rapid.IntRange(0, 5).Draw(t, "idnamesneighbour") == 0 {
+		// a document whose $id ends in the FILE NAME of the next document (address-v2.json, copied from address.json, kept
+		// the id ".../address.json"): a reference "address.json#/..." in it names the file next to it - the property says
+		// file paths are resolved relative to the referring document -, not the document itself (seeded change s95)
+		for i := 0; i+1 < len(w.Files); i++ {
+			a, b := w.Files[i], w.Files[i+1]
+			if a.ID != "" && !isSpecial(a) && !isSpecial(b) && a.Dir == b.Dir {
+				a.ID = "https://example.com/schemas/" + b.Base
+				break
+			}
+		}
+	}
 	// options
 	w.Opts = drawOptions(t, w, npkg)
 	if typeNameFile {
@@ -1280,6 +1292,11 @@ func (g *genCtx) genMarkerObject(marker, fromDef string) Obj {
 		}
 		props = append(props, KV{"sharedany", Obj{{"anyOf", []any{Obj{{"$ref", "#/$defs/SharedA"}}, Obj{{"$ref", "#/$defs/SharedB"}}, cb("sa")}}}})
 		props = append(props, KV{"sharedlist", Obj{{"type", "array"}, {"items", Obj{{"anyOf", []any{Obj{{"$ref", "#/$defs/SharedB"}}, cb("sl"), Obj{{"$ref", "#/$defs/SharedA"}}}}}}}})
+	}
+	if fromDef == "Shared" {
+		// the same string enum (same Go type name, same constants) in every package that defines Shared: constants belong
+		// to their package, whatever other packages of the run declare (seeded change s94)
+		props = append(props, KV{"sharedkind", Obj{{"type", "string"}, {"enum", []any{"active", "inactive"}}}})
 	}
 	if fromDef == "" {
 		props = g.forcedRefs(props)
